@@ -64,6 +64,7 @@ def place_demos(d):
         crate = "derive" if "derive" in f else ("vm" if "_vm" in f else default)
         name = "seeddemo_" + re.sub(r"\W", "_", f[:-3])
         dst = os.path.join(WT, crate, "tests", name + ".rs")
+        os.makedirs(os.path.dirname(dst), exist_ok=True)
         shutil.copy2(os.path.join(d, f), dst)
         pkg = {"pest": "pest", "vm": "pest_vm", "meta": "pest_meta", "derive": "pest_derive", "generator": "pest_generator",
                "grammars": "pest_grammars", "debugger": "pest_debugger"}[crate]
